@@ -327,6 +327,7 @@ func scenario(t *testing.T, idx int64, c ctor, r *rand.Rand) {
 			}
 		}
 	})
+	rt.DistinctIn("grant_sequences_observed", fmt.Sprintf("%s|%v", c.Order, trace))
 	rt.Count("scenarios/"+c.Order, 1)
 	rt.Count("constructor/"+c.Name, 1)
 	if grants >= 2 {
